@@ -26,7 +26,11 @@ def main():
         if src.count(m["old"]) != 1:
             results.append((m["id"], m["prop"], "STALE (pattern count %d)" % src.count(m["old"]))); continue
         try:
-            open(path, "w").write(src.replace(m["old"], m["new"]))
+            src = src.replace(m["old"], m["new"])
+            for o, n in m.get("also", ()):  # further edits of the same file (e.g. an import the change needs)
+                assert src.count(o) == 1, (m["id"], o)
+                src = src.replace(o, n)
+            open(path, "w").write(src)
             t = time.time()
             cmd = [os.path.join(HERE, "check.py"), m["prop"], "--tier", "quick"]
             runs = a.runs or m.get("runs")
